@@ -215,6 +215,103 @@ Proof.
   split; [exact ex_tmesh_dx|]. split; [exact ex_tmesh_df|]. split; [vm_compute; reflexivity|exact ex_tmesh_value].
 Qed.
 
+(* Mesh2D::trapezium at binary64: coordinates X_i 2^ex, Y_j 2^ey, nodal data F_ij 2^g (integer-valued: g = 0); cell
+   sizes, the partial sums of the four corner values and the running sum of |numerators| below 2^53: the single
+   running sum over both loops is exact and equals the double sum of the rule over the reals. *)
+Theorem trapezium2_exact_float : forall (m : mesh2 AF PrimFloat.float) (var : nat) (X Y : nat -> Z) (F : nat -> nat -> Z)
+  (ex ey g : Z),
+  let nx := m2_nx m in let ny := m2_ny m in
+  let x := fun i => nth i (m2_x m) 0%float in
+  let y := fun j => nth j (m2_y m) 0%float in
+  let f := fun i j => nth var (nth (i * m2_ny m + j) (m2_vars m) []) 0%float in
+  let c := fun i j => ((X (i + 1)%nat - X i) * (Y (j + 1)%nat - Y j)
+                       * (F i j + F (i + 1)%nat j + F i (j + 1)%nat + F (i + 1)%nat (j + 1)%nat))%Z in
+  wf2 m -> (var < m2_nvars m)%nat -> (1 <= nx)%nat -> (1 <= ny)%nat ->
+  (forall i, (i < nx)%nat -> ffinite (x i) /\ FR (x i) = (IZR (X i) * bpow radix2 ex)%R) ->
+  (forall j, (j < ny)%nat -> ffinite (y j) /\ FR (y j) = (IZR (Y j) * bpow radix2 ey)%R) ->
+  (forall i j, (i < nx)%nat -> (j < ny)%nat -> ffinite (f i j) /\ FR (f i j) = (IZR (F i j) * bpow radix2 g)%R) ->
+  (-1072 <= ex <= 971)%Z -> (-1074 <= ey <= 971)%Z -> (-1074 <= g <= 971)%Z ->
+  (-1072 <= ex + ey <= 973)%Z -> (-1072 <= ex + ey + g <= 973)%Z ->
+  (forall i, (i + 1 < nx)%nat -> (Z.abs (X (i + 1)%nat - X i) < 2 ^ 53)%Z) ->
+  (forall j, (j + 1 < ny)%nat -> (Z.abs (Y (j + 1)%nat - Y j) < 2 ^ 53)%Z) ->
+  (forall i j, (i + 1 < nx)%nat -> (j + 1 < ny)%nat ->
+     (Z.abs ((X (i + 1)%nat - X i) * (Y (j + 1)%nat - Y j)) < 2 ^ 53)%Z) ->
+  (forall i j, (i + 1 < nx)%nat -> (j + 1 < ny)%nat ->
+     (Z.abs (F i j + F (i + 1)%nat j) < 2 ^ 53 /\ Z.abs (F i j + F (i + 1)%nat j + F i (j + 1)%nat) < 2 ^ 53 /\
+      Z.abs (F i j + F (i + 1)%nat j + F i (j + 1)%nat + F (i + 1)%nat (j + 1)%nat) < 2 ^ 53)%Z) ->
+  (zsum_n (nx - 1) (fun i => zsum_n (ny - 1) (fun j => Z.abs (c i j))) < 2 ^ 53)%Z ->
+  exists r, trapezium2 (A := AF) 0.25%float m var = Ok r /\ ffinite r /\
+    FR r = sumR (nx - 1) (fun i => sumR (ny - 1) (fun j =>
+             (/ 4 * (FR (x (i + 1)%nat) - FR (x i)) * (FR (y (j + 1)%nat) - FR (y j))
+             * (FR (f i j) + FR (f (i + 1)%nat j) + FR (f i (j + 1)%nat) + FR (f (i + 1)%nat (j + 1)%nat)))%R)) /\
+    FR r = (IZR (zsum_n (nx - 1) (fun i => zsum_n (ny - 1) (c i))) * bpow radix2 (ex + ey + g - 2))%R.
+Proof.
+  intros m var X Y F ex ey g nx ny x y f c Hwf Hv Hnx Hny HX HY HF Hex Hey Hg Hxy Hxyg Hdx Hdy Hdxy HS Hb.
+  exact (trapezium2_exact_float_lemma m var X Y F ex ey g Hwf Hv Hnx Hny HX HY HF Hex Hey Hg Hxy Hxyg Hdx Hdy Hdxy HS Hb).
+Qed.
+Check trapezium2_exact_float : forall (m : mesh2 AF PrimFloat.float) (var : nat) (X Y : nat -> Z) (F : nat -> nat -> Z)
+  (ex ey g : Z),
+  let nx := m2_nx m in let ny := m2_ny m in
+  let x := fun i => nth i (m2_x m) 0%float in
+  let y := fun j => nth j (m2_y m) 0%float in
+  let f := fun i j => nth var (nth (i * m2_ny m + j) (m2_vars m) []) 0%float in
+  let c := fun i j => ((X (i + 1)%nat - X i) * (Y (j + 1)%nat - Y j)
+                       * (F i j + F (i + 1)%nat j + F i (j + 1)%nat + F (i + 1)%nat (j + 1)%nat))%Z in
+  wf2 m -> (var < m2_nvars m)%nat -> (1 <= nx)%nat -> (1 <= ny)%nat ->
+  (forall i, (i < nx)%nat -> ffinite (x i) /\ FR (x i) = (IZR (X i) * bpow radix2 ex)%R) ->
+  (forall j, (j < ny)%nat -> ffinite (y j) /\ FR (y j) = (IZR (Y j) * bpow radix2 ey)%R) ->
+  (forall i j, (i < nx)%nat -> (j < ny)%nat -> ffinite (f i j) /\ FR (f i j) = (IZR (F i j) * bpow radix2 g)%R) ->
+  (-1072 <= ex <= 971)%Z -> (-1074 <= ey <= 971)%Z -> (-1074 <= g <= 971)%Z ->
+  (-1072 <= ex + ey <= 973)%Z -> (-1072 <= ex + ey + g <= 973)%Z ->
+  (forall i, (i + 1 < nx)%nat -> (Z.abs (X (i + 1)%nat - X i) < 2 ^ 53)%Z) ->
+  (forall j, (j + 1 < ny)%nat -> (Z.abs (Y (j + 1)%nat - Y j) < 2 ^ 53)%Z) ->
+  (forall i j, (i + 1 < nx)%nat -> (j + 1 < ny)%nat ->
+     (Z.abs ((X (i + 1)%nat - X i) * (Y (j + 1)%nat - Y j)) < 2 ^ 53)%Z) ->
+  (forall i j, (i + 1 < nx)%nat -> (j + 1 < ny)%nat ->
+     (Z.abs (F i j + F (i + 1)%nat j) < 2 ^ 53 /\ Z.abs (F i j + F (i + 1)%nat j + F i (j + 1)%nat) < 2 ^ 53 /\
+      Z.abs (F i j + F (i + 1)%nat j + F i (j + 1)%nat + F (i + 1)%nat (j + 1)%nat) < 2 ^ 53)%Z) ->
+  (zsum_n (nx - 1) (fun i => zsum_n (ny - 1) (fun j => Z.abs (c i j))) < 2 ^ 53)%Z ->
+  exists r, trapezium2 (A := AF) 0.25%float m var = Ok r /\ ffinite r /\
+    FR r = sumR (nx - 1) (fun i => sumR (ny - 1) (fun j =>
+             (/ 4 * (FR (x (i + 1)%nat) - FR (x i)) * (FR (y (j + 1)%nat) - FR (y j))
+             * (FR (f i j) + FR (f (i + 1)%nat j) + FR (f i (j + 1)%nat) + FR (f (i + 1)%nat (j + 1)%nat)))%R)) /\
+    FR r = (IZR (zsum_n (nx - 1) (fun i => zsum_n (ny - 1) (c i))) * bpow radix2 (ex + ey + g - 2))%R.
+Print Assumptions trapezium2_exact_float.
+(* x in {0, 1/2}, y in {0, 1, 3}, data 1 + 8x + 3y + 16xy at the nodes (integers): the rule gives 81/4 exactly *)
+Example trapezium2_exact_float_nonvacuous :
+  let m := ex_tmesh2 in
+  let nx := m2_nx m in let ny := m2_ny m in
+  let x := fun i => nth i (m2_x m) 0%float in
+  let y := fun j => nth j (m2_y m) 0%float in
+  let f := fun i j => nth 0 (nth (i * m2_ny m + j) (m2_vars m) []) 0%float in
+  wf2 m /\ (0 < m2_nvars m)%nat /\ (1 <= nx)%nat /\ (1 <= ny)%nat /\
+  (forall i, (i < nx)%nat -> ffinite (x i) /\ FR (x i) = (IZR (ex_t2X i) * bpow radix2 (-1))%R) /\
+  (forall j, (j < ny)%nat -> ffinite (y j) /\ FR (y j) = (IZR (ex_t2Y j) * bpow radix2 0)%R) /\
+  (forall i j, (i < nx)%nat -> (j < ny)%nat -> ffinite (f i j) /\ FR (f i j) = (IZR (ex_t2F i j) * bpow radix2 0)%R) /\
+  (-1072 <= -1 <= 971)%Z /\ (-1074 <= 0 <= 971)%Z /\ (-1072 <= -1 + 0 <= 973)%Z /\ (-1072 <= -1 + 0 + 0 <= 973)%Z /\
+  (forall i, (i + 1 < nx)%nat -> (Z.abs (ex_t2X (i + 1)%nat - ex_t2X i) < 2 ^ 53)%Z) /\
+  (forall j, (j + 1 < ny)%nat -> (Z.abs (ex_t2Y (j + 1)%nat - ex_t2Y j) < 2 ^ 53)%Z) /\
+  (forall i j, (i + 1 < nx)%nat -> (j + 1 < ny)%nat ->
+     (Z.abs ((ex_t2X (i + 1)%nat - ex_t2X i) * (ex_t2Y (j + 1)%nat - ex_t2Y j)) < 2 ^ 53)%Z) /\
+  (forall i j, (i + 1 < nx)%nat -> (j + 1 < ny)%nat ->
+     (Z.abs (ex_t2F i j + ex_t2F (i + 1)%nat j) < 2 ^ 53 /\
+      Z.abs (ex_t2F i j + ex_t2F (i + 1)%nat j + ex_t2F i (j + 1)%nat) < 2 ^ 53 /\
+      Z.abs (ex_t2F i j + ex_t2F (i + 1)%nat j + ex_t2F i (j + 1)%nat + ex_t2F (i + 1)%nat (j + 1)%nat) < 2 ^ 53)%Z) /\
+  (zsum_n (nx - 1) (fun i => zsum_n (ny - 1) (fun j => Z.abs
+     ((ex_t2X (i + 1)%nat - ex_t2X i) * (ex_t2Y (j + 1)%nat - ex_t2Y j)
+      * (ex_t2F i j + ex_t2F (i + 1)%nat j + ex_t2F i (j + 1)%nat + ex_t2F (i + 1)%nat (j + 1)%nat)))) < 2 ^ 53)%Z /\
+  trapezium2 (A := AF) 0.25%float m 0 = Ok 20.25%float.
+Proof.
+  cbv zeta. split; [exact ex_tmesh2_wf|]. split; [cbn; lia|]. split; [cbn; lia|]. split; [cbn; lia|].
+  split; [exact ex_tmesh2_x|]. split; [exact ex_tmesh2_y|]. split; [exact ex_tmesh2_f|].
+  split; [lia|]. split; [lia|]. split; [lia|]. split; [lia|].
+  split; [intros i Hi; destruct i as [|i]; [cbn; lia|cbn in Hi; lia]|].
+  split; [intros j Hj; do 2 (destruct j as [|j]; [cbn; lia|]); cbn in Hj; lia|].
+  split; [intros i j Hi Hj; destruct i as [|i]; [|cbn in Hi; lia]; do 2 (destruct j as [|j]; [cbn; lia|]); cbn in Hj; lia|].
+  split; [intros i j Hi Hj; destruct i as [|i]; [|cbn in Hi; lia]; do 2 (destruct j as [|j]; [cbn; lia|]); cbn in Hj; lia|].
+  split; [vm_compute; reflexivity|exact ex_tmesh2_value].
+Qed.
+
 (* Mesh1D::get_interpolated_vars at binary64 with the code's window (MESH_SNAP = 1e-7): node coordinates X_k 2^e on
    a grid no finer than the window (e >= -23), strictly increasing; x = Xx 2^e on the grid, j the LAST cell containing
    it; cell j of width 2^P 2^e with nodal data F 2^g (integer-valued: g = 0) whose numerators, scaled by 2^P, fit in
